@@ -37,11 +37,11 @@ import z3
 from amaranth import Signal, Value, signed
 
 from ..harness import Built
-from ..seq import Unroll
+from ..seq import Unroll, cosim
 from ..util import zx
 from ..pysym import SInt, SBool, Unsupported
 from .c33 import (CtxDesign, CTXS, BODIES, site_active, expected_order, lift, nonzero, subseq_goal, drive, StubTick, StubSim, Values,
-                  prove_py, note, model_env, explore, coverage, dom_of, eval_paths, _patch_src, W)
+                  prove_py, note, model_env, explore, coverage, dom_of, eval_paths, split_cfgs, split_mk, split_dom, split_fix, _patch_src, W)
 
 PROP = "C34"
 LEVEL = "model_checking"
@@ -321,7 +321,8 @@ def _process_configs(tier, seed):
         extra = _site(rng, "none", "none", "debug", nos=True, name="zz")
         if not (site_level(extra) >= lvl and re.search(rx, extra["name"])):
             sites.insert(rng.randrange(len(sites) + 1), extra)
-        out.append(dict(group="process", sites=sites, K=K, level=lvl, regexp=rx, on_error=mode, queries=[]))
+        c = dict(group="process", sites=sites, K=K, level=lvl, regexp=rx, on_error=mode, queries=[])
+        out += split_cfgs(c) if n * K >= 12 else [c]  # 4096 histories: four tasks of 1024
     return out
 
 
@@ -344,12 +345,15 @@ def _format_configs(tier, seed):
                     lst.append(["fmt", sp, rng.randint(1, 3)])
             if sum(c[2] for c in lst if c[0] == "fmt" and c[1].endswith("s")) <= 6:
                 lists.append(lst)
-    return [dict(group="format", chunks=c, extra_args=(i % 3 == 0)) for i, c in enumerate(lists)]
+    return [dict(group="format", chunks=c) for c in lists]
 
 
 def configs(tier, seed):
     proc = sorted(_process_configs(tier, seed), key=lambda c: -len(c["sites"]) * c["K"])
-    return proc + _format_configs(tier, seed) + _trig_configs(tier, seed)
+    trig = _trig_configs(tier, seed)
+    for c in trig[:3]:
+        c["cosim"] = True  # random traces through amaranth.sim and through the encoding
+    return proc + _format_configs(tier, seed) + trig
 
 
 # ---------------------------------------------------------------------------------------------------------------------
@@ -398,6 +402,12 @@ def _run_trig(cfg, ctx):
     u = Unroll(b, free_init=True)
     o = u.cycle()
     ctx.frames += 1
+    if cfg.get("cosim"):
+        pts, mism = cosim(b, 8, ctx.seed)
+        ctx.cosim_points += pts
+        ctx.cosim_traces += 1
+        if mism:
+            ctx.errors.append(f"cosim mismatch encoder vs pysim in cfg {cfg}: {mism[:4]}")
     bad = _record_facts(d, cfg)
     ctx._record(f"levels, logger names, registration order, get_log_records selection, format_spec / fields vs Python's parse for {n} record(s)", "obligation",
                 "sat" if bad else "unsat", 0.0)
@@ -712,17 +722,14 @@ class ProcessHarness:
 def _run_process(cfg, ctx):
     h = ProcessHarness(cfg, ctx)
     n, K = len(h.recs), cfg["K"]
-    label = f"process {n} selected record(s) of {len(cfg['sites'])} x {K} cycle(s), level>={cfg['level']} /{cfg['regexp']}/, on_error {cfg['on_error']}s"
+    split = cfg.get("split", {})
+    label = (f"process {n} selected record(s) of {len(cfg['sites'])} x {K} cycle(s), level>={cfg['level']} /{cfg['regexp']}/, on_error {cfg['on_error']}s" +
+             (f" [part {split}]" if split else ""))
     box = {}
 
     def body(eng):
         names = {}
-
-        def mk(name, lo, hi):
-            names[name] = (lo, hi)
-            return eng.int(name, lo, hi)
-
-        r = h.run(mk)
+        r = h.run(split_mk(eng, names, split))
         box["names"] = names
         return r
 
@@ -755,12 +762,14 @@ def _run_process(cfg, ctx):
                              f"location / field values / tick; on_error exactly after records of level >= ERROR", p.pc, g, replay) is not False
 
     eng, paths, complete = explore(ctx, label, body, per_path)
+    ctx.frames += K * len(paths)  # symbolic cycles of the stub simulator
+    ctx.steps += K * len(paths)
     names = box.get("names", {})
-    dom = dom_of(names)
+    dom = dom_of(names) + split_dom(split)
     if not complete:
         return
     coverage(ctx, label, dom, paths)
-    if n:
+    if n and not split:
         full = any(len([e for e in p.result["events"] if e[0] == "log"]) == n * K for p in paths)
         for wn, ok in ((("some explored history logs every (cycle, record)", full),) if cfg["on_error"] != "raise" else ()) + \
                 (("some explored history logs nothing", any(not p.result["events"] for p in paths)),
@@ -771,6 +780,7 @@ def _run_process(cfg, ctx):
     rng = random.Random(ctx.seed * 31 + ctx.index)
     for _ in range(6 if names else 0):
         env = {nm: (rng.choice([lo, hi, 0 if lo <= 0 <= hi else lo]) if rng.random() < 0.3 else rng.randint(lo, hi)) for nm, (lo, hi) in names.items()}
+        env = split_fix(env, split, names)
         ok, summ, bad = concrete(env)
         try:
             sym = eval_paths(paths, env, lambda p: _plain(summary(p.result)))
@@ -803,10 +813,9 @@ def _run_format(cfg, ctx):
     def execute(mk):
         args = [mk(f"arg{k}", 0 if c[1].endswith("s") else -(1 << (8 * c[2] - 1)), (1 << (8 * c[2])) - 1 if c[1].endswith("s") else (1 << (8 * c[2] - 1)) - 1)
                 for k, c in enumerate(fmts)]
-        extra = [mk("extra", 0, 255)] if cfg["extra_args"] else []
         fmt = FormatRecorder()
         with patched_logging(None, fmt):
-            res = info.format(*args, *extra)
+            res = info.format(*args)  # exactly one argument per format chunk, as the logging process passes them
         return dict(args=args, res=res, fmt=fmt)
 
     def body(eng):
